@@ -91,8 +91,10 @@ Hist == /\ Is("hist") /\ UNCHANGED <<ids, accepted, formatted>>
 \* names, and a frame naming a dictionary that is not in the set is refused
 MultiN == /\ Is("multiN") /\ (Ev.made = Ev.n => (Ev.okAll /\ Ev.refusedUnknown)) /\ UNCHANGED <<ids, accepted, formatted>> /\ KeepM
 
+\* diagnosis line written before a round trip whose bytes differ (which side produced them); the verdict is the rt line's
+RtDiag == Is("rtdiag") /\ UNCHANGED <<ids, accepted, formatted>> /\ KeepM
 End == Is("end") /\ UNCHANGED <<ids, accepted, formatted>> /\ KeepM
-TNext == MultiN \/ DictEv \/ Loaders \/ RT \/ Wrong \/ HistBegin \/ HistEnd \/ Hist \/ End
+TNext == RtDiag \/ MultiN \/ DictEv \/ Loaders \/ RT \/ Wrong \/ HistBegin \/ HistEnd \/ Hist \/ End
 Track == IF l > TLCGet(1) THEN TLCSet(1, l) ELSE TRUE
 TraceAccepted == IF TLCGet(1) = Len(Tr) + 1 THEN TRUE
                  ELSE /\ PrintT(<<"TRACE-REJECT matched", TLCGet(1) - 1, "of", Len(Tr), "next line", IF TLCGet(1) <= Len(Tr) THEN Tr[TLCGet(1)] ELSE <<>> >>)
